@@ -436,6 +436,69 @@ class Gen(object):
             return assign_new('int', 'w', {'t': 'ocall', 'h': {'t': 'self'}, 'n': 'iop', 'ps': ps(k=intv())})
         return None
 
+    # statement productions that are only parsed (events, bridges, operations, ports, arrays, enumerators)
+    def syntax_stmt(self):
+        r = self.rnd
+        ps = lambda: [{'n': r.choice(['p', 'q', 'value']), 'e': self.expr(r.choice(['int', 'bool', 'str']))}
+                      for _ in range(r.randint(0, 3))]
+        ev = lambda: {'id': r.choice(['A1', 'B2', 'E_3']), 'poly': False, 'meaning': r.choice(['', "'go'", "'ready now'"]),
+                      'hasdata': False, 'data': []}
+
+        def evd():
+            e = ev()
+            e['data'] = ps()
+            e['hasdata'] = bool(e['data'])
+            return e
+        k = r.choice(['bridge', 'bridge_assign', 'class_op', 'class_assign', 'inst_op', 'fcall', 'fcall_value', 'send', 'control',
+                      'gen_class', 'gen_inst', 'gen_pre', 'create_ev_class', 'create_ev_inst', 'send_event', 'enum', 'index',
+                      'param', 'create_nv', 'using', 'selfattr'])
+        icall = lambda kind: {'t': 'icall', 'kind': kind, 'ns': r.choice(['LOG', 'ARCH', 'T_1']), 'n': r.choice(['LogInfo', 'op', 'f2']),
+                              'ps': ps()}
+        if k == 'bridge':
+            return {'t': 'call', 'inv': icall('bridge')}
+        if k == 'bridge_assign':
+            return Assign(V(self.fresh('int', 'b')), icall('bridge'))
+        if k == 'class_op':
+            return {'t': 'call', 'inv': icall(r.choice(['class', 'implicit']))}
+        if k == 'class_assign':
+            return Assign(V(self.fresh('int', 'k')), icall(r.choice(['class', 'implicit'])))
+        if k == 'send':
+            return r.choice([{'t': 'call', 'inv': icall('port')}, Assign(V(self.fresh('int', 'p')), icall('port'))])
+        if k == 'inst_op':
+            h = r.choice([V('someinst'), {'t': 'self'}])
+            return {'t': 'call', 'inv': {'t': 'ocall', 'h': h, 'n': 'compute', 'ps': ps()}}
+        if k == 'fcall':
+            return {'t': 'call', 'inv': {'t': 'fcall', 'n': r.choice(['f', 'do_it']), 'ps': ps()}}
+        if k == 'fcall_value':
+            return Assign(V(self.fresh('int', 'f')), Bin('+', {'t': 'fcall', 'n': 'g', 'ps': ps()}, I(1)))
+        if k == 'control':
+            return {'t': 'control'}
+        if k == 'gen_class':
+            return {'t': 'gen_class', 'ev': evd(), 'k': 'A', 'word': r.choice(['class', 'creator'])}
+        if k == 'gen_inst':
+            return {'t': 'gen_inst', 'ev': evd(), 'to': r.choice([V('target'), {'t': 'self'}])}
+        if k == 'gen_pre':
+            return {'t': 'gen_pre', 'e': V('evt')}
+        if k == 'create_ev_class':
+            return {'t': 'create_ev_class', 'v': 'evt', 'ev': evd(), 'k': 'B', 'word': r.choice(['class', 'creator'])}
+        if k == 'create_ev_inst':
+            return {'t': 'create_ev_inst', 'v': 'evt', 'ev': evd(), 'to': r.choice([V('target'), {'t': 'self'}])}
+        if k == 'send_event':
+            return {'t': 'send_event', 'port': 'Port1', 'n': 'sig', 'ps': ps(), 'to': V('target')}
+        if k == 'enum':
+            return Assign(V(self.fresh('int', 'n')), {'t': 'enum', 'ns': 'Color', 'n': r.choice(['RED', 'green'])})
+        if k == 'index':
+            return Assign({'t': 'index', 'h': V('arr'), 'e': self.expr('int')},
+                          {'t': 'index', 'h': Field(V('rec'), 'items'), 'e': I(r.randint(0, 3))})
+        if k == 'param':
+            return Assign(V(self.fresh('int', 'a')), Bin('*', {'t': 'param', 'n': 'x'}, Field({'t': 'param', 'n': 'rec'}, 'w')))
+        if k == 'create_nv':
+            return {'t': 'create_nv', 'k': 'A'}
+        if k == 'using':
+            return {'t': r.choice(['relate', 'unrelate']), 'a': 'uno', 'b': 'other', 'rel': 'R3', 'ph': r.choice(['', "'of'"]),
+                    'using': 'link'}
+        return Assign(Field({'t': 'self'}, 'N'), self.expr('int'))
+
     def setup(self):
         """a population built by the program itself: instances, attribute values, links"""
         r = self.rnd
